@@ -58,6 +58,7 @@ def run(P, rep, tier):
     rep.attempt(r4_query_scope, P, rep, ctx)
     rep.attempt(r5_fresh_view, P, rep, ctx)
     rep.attempt(r6_children_index, P, rep, ctx)
+    rep.attempt(r8_tables, P, rep, ctx)
     # objects stay findable: destroying *copied* metadata must never unregister the links of the originals
     from . import c06
 
@@ -368,6 +369,82 @@ def r4_query_scope(P, rep, ctx):
     rep.check(okd, "C07.R4", dfi.qual, "deleting a missing object raises KeyError before anything is removed", dfi.loc(), construct="__delitem__ existence", message="__delitem__ does not raise KeyError for a missing object before deleting")
 
 
+def r8_tables(P, rep, ctx):
+    """Two decision tables the exactness of `get` / `query` rests on: how a given object is turned into an instance of
+    the requested schema, and which stored schemas count as children of a requested (name[, version])."""
+    fi = P.func(f"{MM}._parse_obj")
+    f = F(ctx, fi)
+    sc, ob = fi.params[0], fi.params[1]
+    A, C = f"isinstance({ob}, {sc})", f"isinstance({ob}, MetadataSchema)"
+
+    def raw(d):
+        """is the object raw data (str or bytes)? -- tested in one isinstance or in two"""
+        whole = d.get(f"isinstance({ob}, (str, bytes))", d.get(f"isinstance({ob}, (bytes, str))"))
+        if whole is not None:
+            return whole
+        s_, b_ = d.get(f"isinstance({ob}, str)"), d.get(f"isinstance({ob}, bytes)")
+        if s_ is True or b_ is True:
+            return True
+        return False if s_ is False and b_ is False else None
+
+    def spec(d):
+        if d.get(A) is True:
+            return ob
+        if d.get(A) is False and raw(d) is True:
+            return f"{sc}.parse_raw({ob})"
+        if d.get(A) is False and raw(d) is False and d.get(C) is True:
+            return f"{sc}.parse_obj({ob}.dict())"
+        if d.get(A) is False and raw(d) is False and d.get(C) is False:
+            return f"{sc}.parse_obj({ob})"
+        return None
+
+    try:
+        bad = f.decision_mismatches(spec)
+    except ValueError as e:
+        raise AnalysisError(f"C07.R8: _parse_obj: {e}")
+    rep.check(not bad, "C07.R8", fi.qual, "an instance of the schema is kept, raw data is parsed, another schema's instance is re-parsed from its dict, a dict is parsed", fi.loc(), construct="_parse_obj table",
+              message=f"_parse_obj returns {[b_[1][:40] for b_ in bad[:2]]} where {[b_[2] for b_ in bad[:2]]} is due: a stored object does not come back as a validated instance of the requested schema")
+    cfi = P.func(f"{I}.TOCSchemas.children")
+    cf = F(ctx, cfi)
+    names = unpack_names(cf, f"plugin_args({cfi.params[1]}, {cfi.params[2]})")
+    if names is None:
+        raise AnalysisError("C07.R8: `name, vers = plugin_args(schema, version)` not found in TOCSchemas.children")
+    nm, vs = names
+    okc = True
+    unknown_shape = False
+    try:
+        cps = cf.value_paths()
+    except ValueError as e:
+        raise AnalysisError(f"C07.R8: children: {e}")
+    seen = set()
+    for lits, v, n_ in cps:
+        d = dict(lits)
+        given = None if f"{vs} is None" not in d else (not d[f"{vs} is None"])
+        # union of the recorded child sets of the looked-up refs (refs that are not recorded contribute nothing)
+        m = M.match("set().union(*filter(__p, map(self._children.get, __refs)))", v)
+        refs = m["__refs"] if m is not None else None
+        if refs is None:
+            m2 = M.match("set().union(*__c)", v)
+            c_ = m2["__c"] if m2 is not None else None
+            if isinstance(c_, (ast.ListComp, ast.GeneratorExp)) and len(c_.generators) == 1 and isinstance(c_.generators[0].target, ast.Name):
+                tv_ = c_.generators[0].target.id
+                conds_ = [norm(x) for i_ in c_.generators[0].ifs for x in M.conjuncts(i_)]
+                if norm(c_.elt) in (f"self._children[{tv_}]",) and conds_ == [f"{tv_} in self._children"]:
+                    refs = c_.generators[0].iter
+        if refs is None or given is None:
+            unknown_shape = True  # another spelling of the union / of the version test: no verdict
+            continue
+        seen.add(given)
+        if given:
+            okc = okc and norm(refs) in (f"[schemas.PluginRef(name={nm}, version={vs})]", f"(schemas.PluginRef(name={nm}, version={vs}),)")
+        else:
+            okc = okc and isinstance(refs, ast.ListComp) and len(refs.generators) == 1 and norm(M.canon_collections(refs.generators[0].iter)) == "self._children" and norm(refs.elt) == norm(refs.generators[0].target) and len(refs.generators[0].ifs) == 1 and M.equivalent(refs.generators[0].ifs[0], f"{norm(refs.generators[0].target)}.name == {nm}")
+    if unknown_shape:
+        rep.info("C07.R8: TOCSchemas.children builds its result in a form the table does not know (no verdict)")
+    rep.check(okc and (seen == {True, False} or unknown_shape), "C07.R8", cfi.qual, "children(name, version) = children of exactly that release; children(name) = children of every recorded release of that name", cfi.loc(), construct="children() table",
+              message="TOCSchemas.children does not look up exactly the requested release (or, without version, every release of that name): queries for a parent schema return nodes of the wrong schemas / miss nodes")
+
+
 def r6_children_index(P, rep, ctx):
     """Queries for a parent schema find child-schema objects through TOCSchemas._children: every registration must record
     the schema under *each* of its parents, whether or not the parent's entry already exists."""
@@ -420,6 +497,42 @@ def r6_children_index(P, rep, ctx):
             loops_ = [n.idx for n in mf.g.nodes if n.kind == "for"]
             rep.check(bool(whole) and all(mf.all_hit_before([l_], nodes=whole) for l_ in loops_), "C07.R6", mfi.qual, "the index is created empty once, before the stored schemas are loaded", mfi.loc(), construct="children table init",
                       message="TOCSchemas.__init__ (re)creates the children table after or while loading")
+    # un-registration (parents is None): the schema leaves the child sets of parents that are still used; an ancestor that is
+    # itself unused and has no used child left is forgotten with its entries
+    none_t = f.tests(f"{ps} is None")
+    rl = [n for n in g.nodes if n.kind == "for" and isinstance(n.stmt.target, ast.Name) and f.x(n.stmt.iter) == f"self._parents[{sr}]"]
+    oku = len(rl) == 1 and bool(none_t) and f.hit_before(rl[0].idx, edges=none_t) if rl else False
+    if oku:
+        RL, pv_ = rl[0].idx, rl[0].stmt.target.id
+        used = f.tests(f"{pv_} in self._schemas")
+        rem = f.calls(f"self._children[{pv_}].remove({sr})", f"self._children[{pv_}].discard({sr})")
+        dp_ = f.deletes(f"self._parents[{pv_}]") + [i for i, c_, b_ in f.call_sites(f"self._parents.pop({pv_}, ___)")]
+        dc_ = f.deletes(f"self._children[{pv_}]") + [i for i, c_, b_ in f.call_sites(f"self._children.pop({pv_}, ___)")]
+        # "no used child left": all(c not in self._schemas for c in self._children[p])  /  not any(c in self._schemas for ..)
+        orphan_edges = []
+        for t in g.nodes:
+            if t.kind != "test":
+                continue
+            a_ = f.xe_at(t.idx, t.exprs[0])
+            if isinstance(a_, ast.Call) and isinstance(a_.func, ast.Name) and a_.func.id in ("all", "any") and len(a_.args) == 1 and isinstance(a_.args[0], (ast.GeneratorExp, ast.ListComp)) and len(a_.args[0].generators) == 1:
+                ge = a_.args[0]
+                gen = ge.generators[0]
+                if norm(gen.iter) != f"self._children[{pv_}]" or gen.ifs or not isinstance(gen.target, ast.Name):
+                    continue
+                at_, neg_ = M.polarity(ge.elt)
+                if norm(at_) != f"{gen.target.id} in self._schemas":
+                    continue
+                if a_.func.id == "all" and neg_:
+                    orphan_edges.append((t.idx, "T"))
+                elif a_.func.id == "any" and not neg_:
+                    orphan_edges.append((t.idx, "F"))
+        orphan = orphan_edges
+        oku = (bool(used) and bool(rem) and bool(dp_) and bool(dc_) and bool(orphan)
+               and f.all_hit_before(rem, edges=used, src=RL) and all(f.hit_before(RL, nodes=rem, src_edge=e) for e in used)
+               and f.all_hit_before(dp_ + dc_, edges=f.neg(used), src=RL) and f.all_hit_before(dp_ + dc_, edges=orphan, src=RL)
+               and all(f.hit_before(RL, nodes=dp_, src_edge=e) and f.hit_before(RL, nodes=dc_, src_edge=e) for e in orphan))
+    rep.check(oku, "C07.R6", fi.qual, "un-registering removes the schema from the child sets of its used parents and forgets unused, childless ancestors", fi.loc(), construct="children index on un-registration",
+              message="_update_parents_children(schema, None) does not (only) remove the schema from its used parents' child sets and drop unused ancestors without used children: stale child entries make queries for a parent schema report schemas that are no longer stored (or the index keeps growing)")
     ch = P.func(f"{I}.TOCSchemas.children")
     rep.check(any(M.match("self._children.get", x) is not None or M.match("self._children[__k]", x) is not None for x in ast.walk(ch.node)), "C07.R6", ch.qual, "children() reads the same index", ch.loc(), construct="children()", message="TOCSchemas.children does not read _children")
     # explicit start node wins over the accessor's default (query scope)
